@@ -115,7 +115,13 @@ def check(run: Run) -> None:
         cs = R.calls(fa)
         app = [c for c in cs if R.callee_name(c) == "apply_delta"]
         run.count(1, "C08.c.eval")
-        if len(app) != 1 or [cn(a) for a in app[0].args] != ["view.output(evaluation_time)", "view.state()"] or len(fa.body.stmts) != 1:
+        # exactly one apply_delta(output(NOW), state), unconditional (a top-level statement with no return before it), and the output
+        # is not touched anywhere else in the function
+        top = [i for i, s0 in enumerate(fa.body.stmts) if app and any(x is app[0] for x in s0.walk())]
+        uncond = bool(top) and isinstance(fa.body.stmts[top[0]], (C.ExprStmt, C.Return)) and \
+            not any(isinstance(x, (C.Return, C.Throw)) for s0 in fa.body.stmts[:top[0]] for x in s0.walk())
+        other_out = [c for c in cs if c is not (app[0] if app else None) and "view.output(" in cn(c) and not (app and any(x is c for x in app[0].walk()))]
+        if len(app) != 1 or [cn(a) for a in app[0].args] != ["view.output(evaluation_time)", "view.state()"] or not uncond or other_out:
             run.finding("C08.c", "evaluate_feedback_source", "the source must emit exactly apply_delta(view.output(NOW), view.state())", loc=FB)
         fa = R.fn(run, FB, "start_feedback_source_with_initial_delta")
         fl = R.flow(run, fa)
